@@ -5,6 +5,7 @@
 (* twin (the same request over the same corpus with inert values).                             *)
 EXTENDS HtmlSkel, Json, TLC
 
+CONSTANT Stride   \* 0: validate pages; n > 0: sensitivity of the expressions at every n-th position
 Trace == ndJsonDeserialize("trace.ndjson")
 VARIABLES done
 vars == <<done>>
@@ -37,7 +38,7 @@ Check(e, l) ==
   ELSE IF e.status = 200 /\ ~e.html THEN Reject(l, "not-html", [path |-> e.path])
   ELSE IF e.status # 200 /\ (e.status # 418 \/ e.html \/ ~e.nosniff) THEN Reject(l, "error-page", [status |-> e.status])
   ELSE IF e.status # 200 /\ e.tfail THEN Reject(l, "render-failed", [head |-> e.head])
-  ELSE IF e.status # 200 /\ e.kind = "corpus" THEN Reject(l, "render-failed", [head |-> e.head])
+  ELSE IF e.status # 200 /\ e.kind \in {"corpus", "solo"} THEN Reject(l, "render-failed", [head |-> e.head])
   ELSE IF e.status # 200 THEN
        \* a request value may be an invalid query, but then for the benign twin as well, or only for the payload
        (e.variant = "benign" /\ Trace[PageOf[e.twin]].status = 200 => Reject(l, "twin-status", [head |-> e.head]))
@@ -46,13 +47,24 @@ Check(e, l) ==
        THEN Reject(l, "not-verbatim", [tok |-> CHOOSE i \in DOMAIN e.toks : e.toks[i].bad # 0])
   ELSE IF \E i \in DOMAIN e.toks : \E j \in DOMAIN e.toks[i].url : BadURL(e.toks[i].url[j][2])
        THEN Reject(l, "url-scheme", [tok |-> CHOOSE i \in DOMAIN e.toks : \E j \in DOMAIN e.toks[i].url : BadURL(e.toks[i].url[j][2])])
-  ELSE IF e.variant = "payload" /\ Trace[PageOf[e.twin]].status = 200 /\ Skel(e.toks) # Skel(Trace[PageOf[e.twin]].toks)
+  ELSE IF e.variant = "payload" /\ e.twin # e.id /\ Trace[PageOf[e.twin]].status = 200 /\ Skel(e.toks) # Skel(Trace[PageOf[e.twin]].toks)
        THEN Reject(l, "twin-structure", [twin |-> e.twin])
-  ELSE IF e.variant = "payload" /\ Trace[PageOf[e.twin]].status = 200 /\ Js(e.toks) # Js(Trace[PageOf[e.twin]].toks)
+  ELSE IF e.variant = "payload" /\ e.twin # e.id /\ Trace[PageOf[e.twin]].status = 200 /\ Js(e.toks) # Js(Trace[PageOf[e.twin]].toks)
        THEN Reject(l, "twin-js", [twin |-> e.twin])
   ELSE TRUE
 
-ASSUME \A i \in 1..Len(Trace) : LET e == Trace[i] IN Check(e, i)
+\* ---- sensitivity (specification level): no single injected token is absorbed by an expression
+XTok(tag, an) == [k |-> "S", tag |-> tag, an |-> an, ad |-> <<>>, cls |-> "", bad |-> 0, js |-> ""]
+Ins(toks, i, x) == SubSeq(toks, 1, i - 1) \o <<x>> \o SubSeq(toks, i, Len(toks))
+AddAttr(toks, i) == [toks EXCEPT ![i] = [@ EXCEPT !.an = Append(@, "onmouseover")]]
+Sens(e, l) ==
+  IF ~Accepts(e.tmpl, e.toks) THEN Reject(l, "structure", [tmpl |-> e.tmpl, at |-> Furthest(e.tmpl, e.toks)])
+  ELSE \A i \in {j \in 1..(Len(e.toks) + 1) : j % Stride = 1 % Stride} :
+         /\ (Accepts(e.tmpl, Ins(e.toks, i, XTok("script", <<>>))) => Reject(l, "absorbs-script", [at |-> i]))
+         /\ (Accepts(e.tmpl, Ins(e.toks, i, XTok("img", <<"onerror", "src">>))) => Reject(l, "absorbs-img", [at |-> i]))
+         /\ (i <= Len(e.toks) /\ e.toks[i].k = "S" /\ Accepts(e.tmpl, AddAttr(e.toks, i)) => Reject(l, "absorbs-attribute", [at |-> i]))
+
+ASSUME \A i \in 1..Len(Trace) : LET e == Trace[i] IN IF Stride = 0 THEN Check(e, i) ELSE Sens(e, i)
 Done == ~done /\ done' = TRUE /\ PrintT(<<"ACCEPTED", Len(Trace)>>)
 Next == Done
 Spec == Init /\ [][Next]_vars
